@@ -326,10 +326,8 @@ func (r *Resolver) Resolve(ctx context.Context, name string) (ResolveResult, err
 	if len(strings.TrimSuffix(name, ".")) > 253 {
 		return result, ErrInvalidName
 	}
-	for _, p := range strings.Split(name, ".") {
-		if len(p) > 63 {
-			return result, ErrInvalidName
-		}
+	if longestLabel(name) > 63 {
+		return result, ErrInvalidName
 	}
 	if n := strings.TrimSuffix(name, "."); n != "" && (strings.HasPrefix(n, ".") || strings.HasSuffix(n, ".") || strings.Contains(n, "..")) {
 		// empty labels cannot be encoded
@@ -363,10 +361,8 @@ func (r *Resolver) Resolve(ctx context.Context, name string) (ResolveResult, err
 	if len(strings.TrimSuffix(svcbName, ".")) > 253 {
 		return result, ErrInvalidName
 	}
-	for _, p := range strings.Split(svcbName, ".") {
-		if len(p) > 63 {
-			return result, ErrInvalidName
-		}
+	if longestLabel(svcbName) > 63 {
+		return result, ErrInvalidName
 	}
 	if n := strings.TrimSuffix(svcbName, "."); n != "" && n != name && (strings.HasPrefix(n, ".") || strings.HasSuffix(n, ".") || strings.Contains(n, "..")) {
 		// an empty label in the scheme, or a prefix in front of the root name
@@ -444,6 +440,26 @@ func (r *Resolver) Resolve(ctx context.Context, name string) (ResolveResult, err
 		result.Address = append(result.Address, v.(net.IP))
 	}
 	return result, nil
+}
+
+// longestLabel returns the length of the longest label of name as the dns
+// package encodes it: labels are separated by dots, and a backslash makes the
+// octet that follows it part of the label.
+func longestLabel(name string) int {
+	var longest, n int
+	for i := 0; i < len(name); i++ {
+		switch {
+		case name[i] == '\\' && i+1 < len(name):
+			i++
+			n++
+		case name[i] == '.':
+			n = 0
+		default:
+			n++
+		}
+		longest = max(longest, n)
+	}
+	return longest
 }
 
 func (r *Resolver) resolveTarget(ctx context.Context, name string, res *ResolveResult) error {
